@@ -569,6 +569,7 @@ theorem step_keepsB (sw : Switches) (hsw : sw.fwdCfgImplicit = false) (loadF : L
   | mixin m => simp [step] at h; rw [← h.2]; exact ⟨rfl, rfl, rfl⟩
   | css => simp [step] at h; rw [← h.2]; exact ⟨rfl, rfl, rfl⟩
   | dbg => simp [step] at h; rw [← h.2]; exact ⟨rfl, rfl, rfl⟩
+  | nested pid ctx n' v => simp [step] at h; rw [← h.2]; exact ⟨rfl, rfl, rfl⟩
   | use url ns withs =>
     simp only [step] at h
     repeat' split at h
